@@ -94,9 +94,11 @@ def run(prop, tier, seed, replay=None, rep=None, finish=True):
             sizes = sorted(set(list(range(0, 51)) + list(range(0, 2001, 20)))) if tier == 'quick' else list(range(0, 2001))
             mc('MCS2', [tok('pct', p) for p in range(0, 101)], sizes, 1,
                'percentages 0..100 x realistic sizes (integer floor vs. float rounding)')
-            mc('MCS3', [tok('pct', p) for p in range(0, 101, 1 if tier != 'quick' else 7)] + [tok('rest')],
-               [100, 199, 1000, 1999] if tier == 'quick' else [100, 150, 199, 300, 999, 1000, 1999], 2,
-               'two-part percentage/rest specifications at realistic sizes')
+            pcts = [0, 1, 10, 25, 29, 33, 50, 57, 67, 90, 99, 100] if tier == 'quick' else list(range(0, 101))
+            mc('MCS3', [tok('pct', p) for p in pcts] + [tok('rest')],
+               list(range(0, 131)) + [199, 1000, 1999] if tier == 'quick' else list(range(0, 301)) + [999, 1000, 1999], 2,
+               'two-part percentage/percentage and percentage/rest specifications x every size 0..130/300: a rounding error '
+               'in one part is not masked by the remainder going back to the same part')
             rep.exhaustive = True
             rnd = random.Random(seed)
             for k in range(2000 if tier == 'quick' else 30000):
